@@ -586,8 +586,9 @@ def common_meta(ctx):
                 "recursion, duplicate names, zero durations, optional cut = calls open at the end; odd kinds: LOST "
                 "markers, traces starting at depth>0, EXIT at stack 0, max_stack 1-3) run through the real "
                 "build_function_tree/report_calc_avg/report_sort_nodes (in-process) and, for a subset, through "
-                "`uftrace report` with 10 option sets; distinct = distinct record lists; non-trivial = >= 2 nesting "
-                "levels and >= 1 boundary tag")
+                "`uftrace report` with 9 option sets (default, --avg-total, --avg-self, -f all, 3 random -s/-f, --avg-* with "
+                "short keys, --avg-* with -f), --task, --diff DIR DIR and --diff against a second generated data set; "
+                "distinct = distinct record lists; non-trivial = >= 2 nesting levels and >= 1 boundary tag")
     ctx.trusted = [
         "Coq 8.16.1 kernel incl. vm_compute; no axioms (Print Assumptions: closed under the global context)",
         "hand-written model coq/theories/C08/Model.v of fstack_account_time/fstack_update_stack_count (utils/fstack.c), "
@@ -602,7 +603,11 @@ def common_meta(ctx):
         "no filters/triggers/time range/kernel or event records (those are C07's); default depth 1024 >= max_stack",
         "symbol lookup and the time-ordered merge of tasks are taken as given (C10, C06): the model processes tasks "
         "one after the other; theorem C08_table_order_irrelevant shows the table does not depend on the row order",
-        "total-stdv/self-stdv (floating point) are not modelled or compared; sort keys *_stdv and `size` are not generated",
+        "total-stdv/self-stdv (floating point) are not modelled or compared; sort keys *_stdv and `size` are not generated; "
+        "--diff is exercised with the default policy/key only; rows of equal |difference| are compared as a set; the "
+        "sign of a printed time difference is not judged (inverted without colours: reported)",
+        "LOST markers, data starting at depth>0 (fork child), EXIT at stack 0 and max_stack overflow are compared with "
+        "the model only (no checker: the code's figures for them are refuted/reported, see Properties_C08.v)",
         "times below 24 min per figure in generated cases (the hour unit of __print_time_unit divides minutes by 24: "
         "reported as a finding, witness proved in Coq)",
         "accumulated sums stay below 2^64 ns in the theorems about exact sums (the model itself wraps like uint64_t)",
